@@ -23,6 +23,8 @@ SPELL = {
     "bodysrc": "--- x\n", "bodytgt": "+++ y\n", "git": "diff --git a/f.py b/f.py\n", "empty": "\n", "badhunk": "@@ -x +y @@\n",
     "tgtnull": "+++ /dev/null\n",
     # a -/+ pair with identical text (only the line terminator changed), with and without git's marker line
+    # lines removed from the end of a file that used to be longer: old line numbers beyond the end of the file on disk
+    "deltail": "@@ -5,2 +4,0 @@\n-gone 1\n-gone 2\n",
     "samepair": "-# <block name=\"a\">\n+# <block name=\"a\">\n",
     "samepair_nonl": "-# <block name=\"a\">\n\\ No newline at end of file\n+# <block name=\"a\">\n",
 }
